@@ -2,10 +2,16 @@ use std::borrow::Cow;
 use std::io;
 use std::sync::{Arc, OnceLock};
 use std::time::Duration;
+#[cfg(not(indicatif_verif))]
 #[cfg(not(target_arch = "wasm32"))]
 use std::time::Instant;
+#[cfg(indicatif_verif)]
+use verif_simrt::time::Instant;
 
+#[cfg(not(indicatif_verif))]
 use portable_atomic::{AtomicU64, AtomicU8, Ordering};
+#[cfg(indicatif_verif)]
+use verif_simrt::atomic::{AtomicU64, AtomicU8, Ordering};
 #[cfg(target_arch = "wasm32")]
 use web_time::Instant;
 
